@@ -88,6 +88,14 @@ def observe_case(spec):
         text = F.to_text(w)
         o1 = O.parse_outcome(pb, text, tree=False, seconds=0.5)
         o2 = O.parse_outcome(pc, text, tree=False, seconds=0.5)
+        # half a second of CPU is short for a first call (lazy scanner construction, collision checks, a GC pause): a "hang" is
+        # only believed after a second attempt with a generous budget
+        if o1['out'] == 'hang':
+            o1 = O.parse_outcome(pb, text, tree=False, seconds=10)
+            case['retried_hangs'] = case.get('retried_hangs', 0) + 1
+        if o2['out'] == 'hang':
+            o2 = O.parse_outcome(pc, text, tree=False, seconds=10)
+            case['retried_hangs'] = case.get('retried_hangs', 0) + 1
 
         def code(o):
             if o['out'] == 'hang':
@@ -101,7 +109,7 @@ def observe_case(spec):
         for k, t in enumerate(toks):
             st = ip.parser_state
             try:
-                with O.budget(0.5):
+                with O.budget(4):
                     evs.append([[sidx[s] for s in st.state_stack], sorted(str(x) for x in ip.choices().keys()),
                                 sorted(str(x) for x in ip.accepts())])
             except (O.Hang, MemoryError):
@@ -109,7 +117,7 @@ def observe_case(spec):
                 errk = k + 1
                 break
             try:
-                with O.budget(0.5):
+                with O.budget(4):
                     if t == '$END':
                         ip.feed_eof()
                     else:
